@@ -11,8 +11,9 @@ import z3
 
 
 class Result:
-    def __init__(self, oid, verdict, backend, secs, model=None, reason=''):
+    def __init__(self, oid, verdict, backend, secs, model=None, reason='', rl=0, h=''):
         self.id, self.verdict, self.backend, self.secs, self.model, self.reason = oid, verdict, backend, secs, model, reason
+        self.rl, self.h = rl, h        # z3 resource units consumed; hash of the SMT-LIB text of the VC (when computed)
 
     def as_dict(self):
         return {'id': self.id, 'verdict': self.verdict, 'backend': self.backend, 'secs': round(self.secs, 3), 'reason': self.reason}
@@ -32,9 +33,20 @@ def has_quantifier(t, _cache={}):
     return False
 
 
-def _solve(obl, timeout_ms, seed, on_model, ground_only=False):
+# z3 budgets are RESOURCE limits (deterministic counts of solver steps), not wall-clock: the verdict of an obligation must not depend
+# on how busy the machine is.  A budget of t "seconds" is t * RL_PER_S units (about t seconds on an idle core of this sandbox); the
+# wall-clock kill of the worker is only a backstop, far above it.
+RL_PER_S = 4000000
+
+
+def vc_hash(obl):
+    import hashlib
+    return hashlib.sha1(smt2_of(obl).encode()).hexdigest()[:20]
+
+
+def _solve(obl, budget_s, seed, on_model, ground_only=False, want_hash=False):
     s = z3.Solver()
-    s.set('timeout', timeout_ms)
+    s.set('rlimit', int(budget_s * RL_PER_S))
     s.set('random_seed', seed)
     for h in obl.hyps:
         if ground_only and has_quantifier(h):
@@ -43,6 +55,13 @@ def _solve(obl, timeout_ms, seed, on_model, ground_only=False):
     s.add(z3.Not(obl.goal))
     r = s.check()
     out = {'verdict': str(r), 'reason': s.reason_unknown() if r == z3.unknown else ''}
+    try:
+        st = s.statistics()
+        out['rl'] = int(st.get_key_value('rlimit count')) if 'rlimit count' in st.keys() else 0
+    except Exception:
+        out['rl'] = 0
+    if want_hash or r != z3.unsat:
+        out['h'] = vc_hash(obl)
     if r == z3.sat and on_model is not None:
         try:
             out['model'] = on_model(obl, s.model())
@@ -81,7 +100,7 @@ def run_cvc5(obl, timeout_s):
             pass
 
 
-def discharge(obls, timeout=20, procs=16, seed=0, on_model=None, use_cvc5=True, retry_timeout=90, progress=None):
+def discharge(obls, timeout=20, procs=16, seed=0, on_model=None, use_cvc5=True, retry_timeout=90, progress=None, want_hash=False):
     """returns list of Result aligned with obls"""
     results = [None] * len(obls)
     todo = []
@@ -108,13 +127,15 @@ def discharge(obls, timeout=20, procs=16, seed=0, on_model=None, use_cvc5=True, 
             try:
                 if backend == 'cvc5':
                     out = {'verdict': run_cvc5(obls[i], tmo), 'reason': ''}
+                    if want_hash or out['verdict'] != 'unsat':
+                        out['h'] = vc_hash(obls[i])
                 else:
                     if backend == 'z3:ground':
-                        out = _solve(obls[i], int(tmo * 1000), seed, None, ground_only=True)
+                        out = _solve(obls[i], tmo, seed, None, ground_only=True, want_hash=want_hash)
                         if out['verdict'] != 'unsat':
-                            out = {'verdict': 'unknown', 'reason': 'ground fragment inconclusive'}
+                            out = {'verdict': 'unknown', 'reason': 'ground fragment inconclusive', 'rl': out.get('rl', 0)}
                     else:
-                        out = _solve(obls[i], int(tmo * 1000), seed, on_model)
+                        out = _solve(obls[i], tmo, seed, on_model, want_hash=want_hash)
             except BaseException as e:
                 out = {'verdict': 'error', 'reason': repr(e)[:300]}
             try:
@@ -143,7 +164,7 @@ def discharge(obls, timeout=20, procs=16, seed=0, on_model=None, use_cvc5=True, 
                     running[fd] = (pid, i, t0, tmo, be, buf + chunk)
                     continue
                 done = True
-            elif now - t0 > tmo + (8 if be == 'z3' and tmo > 10 else 3):
+            elif now - t0 > (tmo * 12 + 60 if be != 'cvc5' else tmo + 8):
                 try:
                     os.kill(pid, signal.SIGKILL)
                 except OSError:
@@ -165,10 +186,11 @@ def discharge(obls, timeout=20, procs=16, seed=0, on_model=None, use_cvc5=True, 
                 v = out['verdict']
                 o = obls[i]
                 if v in ('sat', 'unsat'):
-                    results[i] = Result(o.id, v, be, secs, out.get('model'), out.get('reason', ''))
+                    results[i] = Result(o.id, v, be, secs, out.get('model'), out.get('reason', ''), out.get('rl', 0), out.get('h', ''))
                 else:
                     prev = results[i]
-                    results[i] = Result(o.id, 'unknown', be, secs + (prev.secs if prev else 0), None, out.get('reason', ''))
+                    results[i] = Result(o.id, 'unknown', be, secs + (prev.secs if prev else 0), None, out.get('reason', ''),
+                                        out.get('rl', 0), out.get('h', '') or (prev.h if prev else ''))
                     # ladder: z3 -> cvc5 -> z3 (long)
                     if o.expect != 'unsat' or be == 'z3:short':
                         pass
